@@ -6,50 +6,48 @@ From Verif Require Import Fmt.Ast Fmt.Print Fmt.Parse Fmt.Wf Fmt.Roundtrip C08.M
 Import ListNotations.
 Local Open Scope nat_scope.
 
-(* hypotheses are satisfiable by a non-trivial value (every proved constructor, depth 7) *)
+(* hypotheses are satisfiable by a non-trivial value (every proved constructor, depth 8, a `::` slice) *)
 Example C08_nonvacuous :
   ladder_wf w_big /\ ~ Known_C08 w_big /\
   parse_expr (need w_big) (print_expr w_big ++ [TNewline]) = POk (w_big, [TNewline]).
 Proof.
-  destruct big_ok as (W & K1 & K2 & P). split; [exact W|]. split; [|exact P].
-  intros [H|H]; unfold Known_C08_float_integral, Known_C08_slice_colon_colon in H; congruence.
+  destruct big_ok as (W & K2 & P). split; [exact W|]. split; [|exact P].
+  unfold Known_C08, Known_C08_float_integral. congruence.
 Qed.
 
 (* T1  parse (print e ++ rest) = (e, rest): the printer inserts no parentheses, so this is exactly the
-       statement that Paren nodes (ladder_wf) suffice; explicit fuel bound 20 * size e *)
-Theorem C08_expr_roundtrip : forall e rest fuel,
+       statement that Paren nodes (ladder_wf) suffice; explicit fuel bound 20 * size e.
+       _partial: ladder_wf excludes dict/set literals and closures (modelled and tied, not proved); match, if,
+       comprehensions, f-strings, yield, statements and declarations are not in the Coq fragment at all. *)
+Theorem C08_expr_roundtrip_partial : forall e rest fuel,
   ladder_wf e -> ~ Known_C08 e -> stop 0 rest -> need e <= fuel ->
   parse_expr fuel (print_expr e ++ rest) = POk (e, rest).
 Proof.
   intros e rest fuel W K Hs Hf.
   apply expr_roundtrip; try assumption.
-  - destruct (has_cc e) eqn:E; [exfalso; apply K; right; exact E | reflexivity].
-  - destruct (has_intfloat e) eqn:E; [exfalso; apply K; left; exact E | reflexivity].
+  destruct (has_intfloat e) eqn:E; [exfalso; apply K; exact E | reflexivity].
 Qed.
-Print Assumptions C08_expr_roundtrip.
+Print Assumptions C08_expr_roundtrip_partial.
 
-(* T2  with integral floats allowed: the result is e with every such float replaced by the int (exactly the
+(* T2  for EVERY ladder_wf expression: the result is e with each integral float replaced by the int (exactly the
        meaning change of finding fmt-float, nothing else) *)
 Theorem C08_expr_roundtrip_modulo_float : forall e rest fuel,
-  ladder_wf e -> ~ Known_C08_slice_colon_colon e -> stop 0 rest -> need e <= fuel ->
+  ladder_wf e -> stop 0 rest -> need e <= fuel ->
   parse_expr fuel (print_expr e ++ rest) = POk (defloat e, rest).
-Proof.
-  intros e rest fuel W K Hs Hf. apply expr_roundtrip_norm; try assumption.
-  destruct (has_cc e) eqn:E; [exfalso; apply K; exact E | reflexivity].
-Qed.
+Proof. intros e rest fuel W Hs Hf. apply expr_roundtrip_norm; assumption. Qed.
 Print Assumptions C08_expr_roundtrip_modulo_float.
 
 (* T3  the float class really changes meaning *)
 Theorem C08_float_refuted : exists e e', ladder_wf e /\ Known_C08_float_integral e /\
   parse_expr 100 (print_expr e) = POk (e', []) /\ e' <> e.
-Proof. destruct float_refuted as (W & _ & K & P & N). eexists _, _. repeat split; eassumption. Qed.
+Proof. destruct float_refuted as (W & K & P & N). eexists _, _. repeat split; eassumption. Qed.
 Print Assumptions C08_float_refuted.
 
-(* T4  the `::` slice class does not re-parse *)
-Theorem C08_slice_colon_colon_refuted : exists e, ladder_wf e /\ Known_C08_slice_colon_colon e /\
-  parse_expr 100 (print_expr e ++ [TNewline]) = PErr.
-Proof. destruct colon_colon_refuted as (W & K & _ & P). eexists. repeat split; eassumption. Qed.
-Print Assumptions C08_slice_colon_colon_refuted.
+(* T4  a slice printed with the `::` token round-trips (it did not before /repo 974c053; the class is gone) *)
+Theorem C08_slice_colon_colon_roundtrips : exists e, ladder_wf e /\ slice_colon_colon e /\
+  parse_expr 100 (print_expr e ++ [TNewline]) = POk (e, [TNewline]).
+Proof. destruct colon_colon_roundtrips as (W & K & _ & P). eexists. repeat split; eassumption. Qed.
+Print Assumptions C08_slice_colon_colon_roundtrips.
 
 (* T5  closures with parameters: the source spelling parses, the printed spelling does not *)
 Theorem C08_closure_refuted : exists ts e, parse_expr 100 ts = POk (e, []) /\ parse_expr 100 (print_expr e) = PErr.
